@@ -261,8 +261,8 @@ const KEY_CHARS: [&str; 34] = [
 
 /// characters that appear in texts in addition to key characters (un-normalised variants,
 /// combining marks, expansions, brackets, prolonged sound marks, controls)
-const TEXT_CHARS: [&str; 47] = [
-    "…", "㈱", "Ⅲ",
+const TEXT_CHARS: [&str; 52] = [
+    "…", "㈱", "Ⅲ", "[", "]", "【", "】", "~",
     "Ａ", "Ｂ", "ｘ", "１", "２", "ｱ", "ｲ", "ｶ", "ﾞ", "A", "B", "X", "〜", "～", "-", "ー", "(", ")", "（", "）", " ",
     "　", "\u{3099}", "\u{0301}", "\u{200d}", "\u{fe0f}", "㍿", "㌔", "ｶﾞ", "、", ".", ",", "3", "0", "百", "千",
     "万", "ー", "ヴ", "え", "\u{0}", "\t", "Ω", "я",
@@ -839,12 +839,24 @@ pub fn gen_config(rng: &mut Rng, n: usize, full: bool) -> (Value, bool, bool) {
         input.push(json!({"class":"com.worksap.nlp.sudachi.DefaultInputTextPlugin"}));
     }
     if full || rng.chance(1, 2) {
+        // the documented defaults most of the time, otherwise another set of marks / another replacement
+        let (marks, repl): (Vec<&str>, &str) = match rng.below(5) {
+            0 => (vec!["ー", "〜"], "ー"),
+            1 => (vec!["ー", "-", "〜", "〰", "~"], "〜"),
+            2 => (vec!["-", "~"], "-"),
+            _ => (vec!["ー", "-", "〜", "〰"], "ー"),
+        };
         input.push(json!({"class":"com.worksap.nlp.sudachi.ProlongedSoundMarkPlugin",
-            "prolongedSoundMarks": ["ー", "-", "〜", "〰"], "replacementSymbol": "ー"}));
+            "prolongedSoundMarks": marks, "replacementSymbol": repl}));
     }
     if full || rng.chance(1, 2) {
+        let (lb, rb): (Vec<&str>, Vec<&str>) = match rng.below(4) {
+            0 => (vec!["(", "（", "[", "【"], vec![")", "）", "]", "】"]),
+            1 => (vec!["（"], vec!["）"]),
+            _ => (vec!["(", "（"], vec![")", "）"]),
+        };
         input.push(json!({"class":"com.worksap.nlp.sudachi.IgnoreYomiganaPlugin",
-            "leftBrackets": ["(", "（"], "rightBrackets": [")", "）"], "maxYomiganaLength": 1 + rng.below(4)}));
+            "leftBrackets": lb, "rightBrackets": rb, "maxYomiganaLength": 1 + rng.below(4)}));
     }
     if !full && rng.chance(1, 4) {
         rng.shuffle(&mut input);
